@@ -58,7 +58,35 @@ type SpecFn struct {
 	Macro  bool
 }
 
+type SweepDirective struct {
+	Prop  string
+	File  string   // source file (base name) whose functions are swept
+	Funcs []string // or explicit function names
+}
+
+// TypeInv is a data-structure invariant: assumed for every value of *Type that a
+// non-owner function reads; owners (the only functions allowed to write the
+// listed fields, the maps/slices stored in them, or to allocate the type) carry
+// it explicitly in their own contracts.  The "only owners write" condition is a
+// frame obligation decided on the SSA (scan.go).
+type TypeInv struct {
+	Prop   string
+	Type   string
+	Fields []string
+	Owners []string
+	Expr   string
+	Line   int
+	Stable bool // "stable" directive: the fields are written only by constructors, on objects they allocate
+}
+
+type GuardDirective struct {
+	Prop, Kind, Arg string
+}
+
 type ContractFile struct {
+	Guards   []GuardDirective
+	TypeInvs []*TypeInv
+	Sweeps []SweepDirective
 	Funcs map[string]*FuncContract
 	Order []string
 	Specs map[string]*SpecFn
@@ -116,6 +144,78 @@ func parseContracts(path string) (*ContractFile, error) {
 			sp.Macro = strings.HasPrefix(t, "macro ")
 			cf.Specs[sp.Name] = sp
 			cf.SpecOrder = append(cf.SpecOrder, sp.Name)
+			continue
+		case strings.HasPrefix(t, "guard "):
+			fs := strings.Fields(t)
+			if len(fs) != 4 {
+				return nil, fmt.Errorf("line %d: guard Cxx recover Type.field", no)
+			}
+			cf.Guards = append(cf.Guards, GuardDirective{fs[1], fs[2], fs[3]})
+			cur = nil
+			continue
+		case strings.HasPrefix(t, "stable "):
+			// stable Cxx Type | f1, f2 | constructor1, constructor2
+			parts := strings.SplitN(strings.TrimPrefix(t, "stable "), "|", 3)
+			if len(parts) != 3 {
+				return nil, fmt.Errorf("line %d: stable Cxx Type | fields | constructors", no)
+			}
+			hd := strings.Fields(parts[0])
+			if len(hd) != 2 {
+				return nil, fmt.Errorf("line %d: stable needs property and type", no)
+			}
+			ti := &TypeInv{Prop: hd[0], Type: hd[1], Expr: "", Line: no, Stable: true}
+			for _, f := range strings.Split(parts[1], ",") {
+				if f = strings.TrimSpace(f); f != "" {
+					ti.Fields = append(ti.Fields, f)
+				}
+			}
+			for _, f := range strings.Split(parts[2], ",") {
+				if f = strings.TrimSpace(f); f != "" {
+					ti.Owners = append(ti.Owners, f)
+				}
+			}
+			cf.TypeInvs = append(cf.TypeInvs, ti)
+			cur = nil
+			continue
+		case strings.HasPrefix(t, "typeinv "):
+			// typeinv Cxx Type | f1, f2 | owner1, owner2 | expr
+			parts := strings.SplitN(strings.TrimPrefix(t, "typeinv "), "|", 4)
+			if len(parts) != 4 {
+				return nil, fmt.Errorf("line %d: typeinv Cxx Type | fields | owners | expr", no)
+			}
+			hd := strings.Fields(parts[0])
+			if len(hd) != 2 {
+				return nil, fmt.Errorf("line %d: typeinv needs property and type", no)
+			}
+			ti := &TypeInv{Prop: hd[0], Type: hd[1], Expr: strings.TrimSpace(parts[3]), Line: no}
+			for _, f := range strings.Split(parts[1], ",") {
+				if f = strings.TrimSpace(f); f != "" {
+					ti.Fields = append(ti.Fields, f)
+				}
+			}
+			for _, f := range strings.Split(parts[2], ",") {
+				if f = strings.TrimSpace(f); f != "" {
+					ti.Owners = append(ti.Owners, f)
+				}
+			}
+			cf.TypeInvs = append(cf.TypeInvs, ti)
+			cur = nil
+			continue
+		case strings.HasPrefix(t, "sweepfile "), strings.HasPrefix(t, "sweep "):
+			fs := strings.Fields(t)
+			if len(fs) < 3 {
+				return nil, fmt.Errorf("line %d: bad sweep directive", no)
+			}
+			d := SweepDirective{Prop: fs[1]}
+			if fs[0] == "sweepfile" {
+				d.File = fs[2]
+			} else {
+				for _, f := range strings.Split(strings.Join(fs[2:], " "), ",") {
+					d.Funcs = append(d.Funcs, strings.TrimSpace(f))
+				}
+			}
+			cf.Sweeps = append(cf.Sweeps, d)
+			cur = nil
 			continue
 		case strings.HasPrefix(t, "func "):
 			name := strings.TrimSpace(strings.TrimPrefix(t, "func "))
